@@ -32,7 +32,7 @@ PER_FILE = {
 COMMON_DEFS = ['-DNDEBUG', '-DCARQUET_ARCH_X86', '-DCARQUET_ENABLE_SSE', '-DCARQUET_ENABLE_AVX2',
                '-DCARQUET_ENABLE_AVX512', '-std=gnu11', '-fopenmp', '-w']
 SAN_ASAN = ['-fsanitize=address,undefined',
-            '-fno-sanitize-recover=bounds,object-size,null,pointer-overflow,vla-bound,nonnull-attribute,returns-nonnull-attribute']
+            '-fno-sanitize-recover=bounds,object-size,null,pointer-overflow,vla-bound,returns-nonnull-attribute']
 VARIANTS = {
     # name: (compiler, cflags, ldflags)
     'asan': ('gcc', ['-O1', '-g', '-fno-omit-frame-pointer', '-DCARQUET_VERIF'] + SAN_ASAN, SAN_ASAN),
@@ -207,7 +207,12 @@ def classify_sanitizer(text, returncode=None):
     m = re.search(r'ERROR: LeakSanitizer: detected memory leaks', text)
     if m:
         tail = text[m.start():]
-        return 'lsan:leak:%s' % _carquet_fn(tail), adv
+        # one block per leak; only blocks whose allocation stack passes through the repository count against carquet
+        blocks = re.split(r'\n(?=(?:Direct|Indirect) leak of )', tail)
+        for b in blocks:
+            if (REPO + '/src/') in b and b.lstrip().startswith(('Direct', 'Indirect')):
+                return 'lsan:leak:%s' % _carquet_fn(b), adv
+        return 'lsan:leak:HARNESS/only-driver-allocations', adv
     for line in text.splitlines():
         if 'runtime error:' in line and not any(a in line for a in _ADVISORY_UB):
             mm = re.search(r'runtime error: (.*)', line)
@@ -300,7 +305,7 @@ class Check:
         key, adv = classify_sanitizer(text, returncode)
         if adv:
             self.count('advisory_ub', adv)
-        if key and 'HARNESS/' in key and not key.startswith('lsan'):
+        if key and 'HARNESS/' in key:
             # the innermost frames are all outside /repo/src: a defect of the driver, not of carquet
             self.fail_harness('sanitizer report inside the harness (%s): %s\n%s' % (key, ctx_what, text[-1500:]))
             return True
